@@ -136,7 +136,7 @@ pub fn is_simple(v: &[P2]) -> bool {
     true
 }
 /// path: Some(true) = required inside, Some(false) = required outside, None = unspecified (caps/corners)
-fn ref_path(w: i64, v: &[P2], p: P2) -> Option<bool> {
+pub fn ref_path(w: i64, v: &[P2], p: P2) -> Option<bool> {
     let mut all_far = true;
     for k in 0..v.len().saturating_sub(1) {
         let (a, b) = (v[k], v[k + 1]);
@@ -160,7 +160,7 @@ fn ref_path(w: i64, v: &[P2], p: P2) -> Option<bool> {
         None
     }
 }
-fn manhattan(v: &[P2]) -> bool {
+pub fn manhattan(v: &[P2]) -> bool {
     v.windows(2).all(|w| w[0].0 == w[1].0 || w[0].1 == w[1].1)
 }
 
